@@ -38,14 +38,16 @@ def main(argv=None):
         # An exception raised INSIDE the library under test, on inputs every harness takes from the specification (all of them
         # accepted by the unchanged tree), is the library refusing an operation that is defined: a violation, not a failure of
         # the machinery.  Anything raised by the harness itself stays a machinery failure.
-        tb = traceback.extract_tb(e.__traceback__)
         repo = os.path.realpath(os.environ.get("QUARA_REPO") or "/repo")
-        inner = tb[-1] if tb else None
-        lib_frames = [f for f in tb if os.path.realpath(f.filename).startswith(os.path.join(repo, "quara") + os.sep)]
-        if inner is not None and lib_frames and os.path.realpath(inner.filename).startswith(repo + os.sep):
-            where = lib_frames[-1]
-            harness_frames = [f for f in tb if os.sep + "harness" + os.sep in f.filename]
-            at = harness_frames[-1] if harness_frames else where
+        libdir = os.path.join(repo, "quara") + os.sep
+        here = os.path.dirname(os.path.abspath(__file__)) + os.sep
+        tb = traceback.extract_tb(e.__traceback__)
+        last_lib = max([i for i, f in enumerate(tb) if os.path.realpath(f.filename).startswith(libdir)], default=-1)
+        last_harness = max([i for i, f in enumerate(tb) if os.path.abspath(f.filename).startswith(here)], default=-1)
+        if last_lib > last_harness:
+            # raised while library code was running (possibly inside numpy / scipy called by it), not by the harness
+            where = tb[last_lib]
+            at = tb[last_harness] if last_harness >= 0 else where
             chk.violation("library_exception:%s:%s" % (os.path.basename(where.filename), where.name),
                           "%s.%s raised %r on a specification-generated input (called from %s:%d); the check stopped here" % (
                               os.path.basename(where.filename), where.name, e, os.path.basename(at.filename), at.lineno),
